@@ -779,3 +779,6 @@ for _pid in ("C01", "C02", "C06", "C13"):
     PROPS[_pid]["domains"] = list(PROPS[_pid]["domains"]) + ["bus"]
     PROPS[_pid]["coq_extra"] = ["Properties/BusLevel.v"]
     PROPS[_pid]["nontrivial"] = list(PROPS[_pid]["nontrivial"]) + ["bus:"]
+
+# C05 also covers the applications: an implementation panic / hang in these domains that the model does not predict is a C05 failure
+PROPS["C05"]["panic_domains"] = ["dp", "scan", "diag", "phyrx", "codec"]
